@@ -1,5 +1,6 @@
+use std::collections::HashMap;
 use std::path::MAIN_SEPARATOR;
-use std::sync::Arc;
+use std::sync::{Arc, RwLock};
 
 use crate::path::Path;
 use crate::pattern::Pattern;
@@ -17,7 +18,9 @@ pub struct PathSelector {
     excluded_paths: Vec<Pattern>,
     /// The input paths that lead through symbolic links: what they resolve to, and the path as
     /// given. The scanned paths start with the former, the patterns may describe the latter.
-    root_aliases: Vec<(String, String)>,
+    /// Found by the resolved path. Any number of input paths can be given (`--stdin`),
+    /// so the aliases of a file are looked up by the directories its path leads through.
+    root_aliases: Arc<RwLock<HashMap<String, Vec<String>>>>,
 }
 
 impl PathSelector {
@@ -28,50 +31,98 @@ impl PathSelector {
             included_names: vec![],
             included_paths: vec![],
             excluded_paths: vec![],
-            root_aliases: vec![],
+            root_aliases: Arc::new(RwLock::new(HashMap::new())),
         }
     }
 
-    /// Tells the selector the input paths of the scan.
-    /// A file below an input path that leads through a symbolic link is reported by its
-    /// resolved path. It is selected or excluded also by the patterns that match the path
-    /// it has below the input path as given.
-    pub fn input_paths(mut self, paths: impl IntoIterator<Item = Path>) -> PathSelector {
-        self.root_aliases = Self::root_aliases(&self.base_dir, paths);
-        self
+    /// Tells the selector an input path of the scan: the path as given (absolute), and the
+    /// path it has been resolved to, under which its files are going to be reported.
+    /// A file below an input path that leads through a symbolic link is selected or excluded
+    /// also by the patterns that match the path it has below the input path as given.
+    /// To be called before the files below that input path are matched.
+    pub fn add_input_path(&self, given: &Path, resolved: &Path) {
+        // What the two paths have in common at the end is not part of the alias:
+        // many files listed below one linked directory make one alias.
+        let mut given = Self::without_dots(given).to_path_buf();
+        let mut resolved = resolved.to_path_buf();
+        while given != resolved
+            && given.file_name().is_some()
+            && given.file_name() == resolved.file_name()
+        {
+            given.pop();
+            resolved.pop();
+        }
+        let given = Path::from(given).to_string_lossy();
+        let resolved = Path::from(resolved).to_string_lossy();
+        if given != resolved {
+            let mut root_aliases = self.root_aliases.write().unwrap();
+            let aliases = root_aliases.entry(resolved).or_default();
+            if !aliases.contains(&given) {
+                aliases.push(given);
+            }
+        }
+    }
+
+    /// Removes the `.` and `..` components without looking at the file system
+    fn without_dots(path: &Path) -> Path {
+        let mut result = std::path::PathBuf::new();
+        for component in path.to_path_buf().components() {
+            match component {
+                std::path::Component::CurDir => {}
+                std::path::Component::ParentDir => {
+                    result.pop();
+                }
+                other => result.push(other),
+            }
+        }
+        Path::from(result)
     }
 
     /// Returns the input paths that lead through symbolic links:
     /// what they resolve to, and the path as given, made absolute.
+    /// They are resolved the same way as the directory walk resolves them.
     pub fn root_aliases(
         base_dir: &Arc<Path>,
         paths: impl IntoIterator<Item = Path>,
     ) -> Vec<(String, String)> {
-        let mut root_aliases = Vec::new();
+        let selector = PathSelector::new(base_dir.as_ref().clone());
         for path in paths {
-            let mut given = std::path::PathBuf::new();
-            for component in base_dir.resolve(path).to_path_buf().components() {
-                match component {
-                    std::path::Component::CurDir => {}
-                    std::path::Component::ParentDir => {
-                        given.pop();
-                    }
-                    other => given.push(other),
-                }
-            }
-            let given = Path::from(given);
-            let resolved = given.canonicalize();
-            if resolved != given {
-                root_aliases.push((resolved.to_string_lossy(), given.to_string_lossy()));
+            let given = base_dir.resolve(path);
+            selector.add_input_path(&given, &crate::config::canonical_root(&given));
+        }
+        let root_aliases = selector.root_aliases.read().unwrap();
+        let mut result = Vec::new();
+        for (resolved, aliases) in root_aliases.iter() {
+            for given in aliases {
+                result.push((resolved.clone(), given.clone()));
             }
         }
-        root_aliases
+        result.sort();
+        result
     }
 
     /// Returns the given path together with the other names it has below the input paths
     /// that lead through symbolic links.
     fn names_of(&self, path: String) -> Vec<String> {
-        Self::names_with_aliases(&self.root_aliases, path)
+        let root_aliases = self.root_aliases.read().unwrap();
+        let mut names = Vec::with_capacity(1);
+        if !root_aliases.is_empty() {
+            // the path itself, and every directory it leads through
+            let ends = path
+                .char_indices()
+                .filter(|(i, c)| *c == MAIN_SEPARATOR && *i > 0)
+                .map(|(i, _)| i)
+                .chain(std::iter::once(path.len()));
+            for end in ends {
+                if let Some(aliases) = root_aliases.get(&path[..end]) {
+                    for given in aliases {
+                        names.push(format!("{}{}", given, &path[end..]));
+                    }
+                }
+            }
+        }
+        names.push(path);
+        names
     }
 
     /// Returns the given path together with the other names it has below the given input
